@@ -399,18 +399,6 @@ theorem bytes_canonical (c : Config) (ft : FT) (h : CanonState c.settings ft) : 
 example : BytesCanonical exCfg exFt := bytes_canonical _ _ (by decide)
 example : BytesCanonical exCfgTabs exFt := bytes_canonical _ _ (by decide)
 
-/-- the token state the closed model hands to the reconstructor (`formatFull` without its last step) -/
-def finalStateFull (cfg : Config) (alnum : Bytes → Bool) (s : Bytes) : Option FT :=
-  match lex s with
-  | none => none
-  | some raw =>
-    match parseAndConsolidate raw with
-    | none => none
-    | some po =>
-      match wrapStageFull cfg (preWrap (preO alnum po) raw).2.1 (preWrap (preO alnum po) raw).2.2 with
-      | none => none
-      | some (ft2, _) => some ft2
-
 theorem formatFull_eq_finalState (cfg : Config) (alnum : Bytes → Bool) (s : Bytes) :
     formatFull cfg alnum s = (finalStateFull cfg alnum s).map (reconstruct cfg.settings) := by
   unfold formatFull finalStateFull
